@@ -18,6 +18,7 @@ import (
 	"go/types"
 	"os"
 	"path/filepath"
+	"regexp"
 	"sort"
 	"strings"
 
@@ -76,6 +77,73 @@ func goEnv() []string {
 	return env
 }
 
+// markSites: functions whose entry is a zzrt.Mark scheduling point (message boundaries), in both views.
+var markSites = map[string][]*regexp.Regexp{
+	"actor": {regexp.MustCompile(`(?m)^func \(\w+ \*process\) invokeMsg\([^)]*\) \{\n`)},
+}
+
+var pkgClause = regexp.MustCompile(`(?m)^package \w+\n`)
+
+func insertMarks(pk string, src []byte) []byte {
+	out := src
+	for _, re := range markSites[pk] {
+		loc := re.FindIndex(out)
+		if loc == nil {
+			continue
+		}
+		out = append(append(append([]byte(nil), out[:loc[1]]...), []byte("\tzzrt.Mark()\n")...), out[loc[1]:]...)
+	}
+	if bytes.Equal(out, src) {
+		return src
+	}
+	if !bytes.Contains(out, []byte(modPath+`/zzrt"`)) {
+		loc := pkgClause.FindIndex(out)
+		if loc == nil {
+			return src
+		}
+		out = append(append(append([]byte(nil), out[:loc[1]]...), []byte("\nimport \""+modPath+"/zzrt\"\n")...), out[loc[1]:]...)
+	}
+	return out
+}
+
+// excludeFiles: harness files that do not compile against the tree under check (a changed internal signature);
+// they are left out of both views so that the harnesses in the other files still run.
+var excludeFiles = map[string]bool{}
+
+var harnessFileInErr = regexp.MustCompile(`(/[^\s:]*/zz_\w+\.go):\d+`)
+
+// loadIsolated builds the symbolic view and loads it; harness files with compile errors are dropped (and
+// reported) and the load is repeated, so that one harness that depends on a changed internal does not take the
+// other harnesses of its package down with it.
+func loadIsolated(pkgs []string) (*View, *World, []string, error) {
+	var dropped []string
+	for round := 0; ; round++ {
+		v, err := buildView(false, pkgs)
+		if err != nil {
+			return nil, nil, dropped, err
+		}
+		w, err := loadWorld(v, pkgs)
+		if err == nil {
+			return v, w, dropped, nil
+		}
+		be, ok := err.(*buildError)
+		if !ok || round >= 6 {
+			return v, nil, dropped, err
+		}
+		fresh := false
+		for _, m := range harnessFileInErr.FindAllStringSubmatch(be.Error(), -1) {
+			if !excludeFiles[m[1]] {
+				excludeFiles[m[1]] = true
+				dropped = append(dropped, m[1])
+				fresh = true
+			}
+		}
+		if !fresh {
+			return v, nil, dropped, err
+		}
+	}
+}
+
 // buildView assembles the overlay. native=true additionally applies the
 // cooperative-scheduling rewrites (go statements, channel operations).
 func buildView(native bool, harnessPkgs []string) (*View, error) {
@@ -111,7 +179,7 @@ func buildView(native bool, harnessPkgs []string) (*View, error) {
 		dir := filepath.Join(verifDir, "harness", pk)
 		ents, _ := os.ReadDir(dir)
 		for _, en := range ents {
-			if !strings.HasSuffix(en.Name(), ".go") {
+			if !strings.HasSuffix(en.Name(), ".go") || excludeFiles[filepath.Join(repoDir, pk, en.Name())] {
 				continue
 			}
 			b, err := os.ReadFile(filepath.Join(dir, en.Name()))
@@ -147,6 +215,10 @@ func buildView(native bool, harnessPkgs []string) (*View, error) {
 			out, changed, err := substituteImports(pk, n, src)
 			if err != nil {
 				return nil, fmt.Errorf("%s: %v", p, err)
+			}
+			if o1 := insertMarks(pk, out); !bytes.Equal(o1, out) {
+				changed = true
+				out = o1
 			}
 			if native {
 				o2, err := rewriteNative(n, out)
